@@ -1,0 +1,48 @@
+//go:build verif
+
+package openapi3
+
+// Contracts for schema validation (C01, C10, C12, C19). Comment-only; read by /verif/engine.
+// The specification functions below are written from JSON-Schema draft-4 section 5 and the
+// OpenAPI 3.0.3 "Schema Object" text, keyword by keyword - not from the code.
+
+//@ global nonnil errSchema ErrSchemaInputNaN ErrSchemaInputInf
+
+// ---- type keyword ----
+//@ spec includes(t *Types, typ string) bool := t != nil && inStrings(*t, typ)
+//@ spec permits(t *Types, typ string) bool := t == nil || includes(t, typ)
+
+//@ func (*Types).Includes
+//@   modifies nothing
+//@   loop 0 invariant forall j int :: 0 <= j && j < #i ==> (*pTypes)[j] != typ
+//@   ensures result == includes(pTypes, typ)
+//@   tag C01 C10
+
+//@ func (*Types).Permits
+//@   modifies nothing
+//@   ensures result == permits(types, typ)
+//@   tag C01 C10
+
+// expectedType builds the "type" error; it is only called when the type is not permitted.
+//@ func (*Schema).expectedType
+//@   requires schema != nil && settings != nil && schema.Type != nil
+//@   modifies nothing
+//@   ensures result != nil
+//@   tag C01 C10
+
+// ---- numbers: type, minimum/maximum (draft-4 boolean exclusive*), multipleOf ----
+//@ spec numTypeOK(s *Schema, f float64) bool :=
+//@     permits(s.Type, "number") || (permits(s.Type, "integer") && isInt(f))
+//@ spec validNumber(s *Schema, f float64) bool :=
+//@     numTypeOK(s, f)
+//@  && (s.Min != nil ==> (s.ExclusiveMin ? *s.Min < f : *s.Min <= f))
+//@  && (s.Max != nil ==> (s.ExclusiveMax ? *s.Max > f : *s.Max >= f))
+//@  && (s.MultipleOf != nil ==> (!isNaN(f / *s.MultipleOf) && isInt(f / *s.MultipleOf)))
+
+//@ func (*Schema).visitJSONNumber
+//@   requires schema != nil && settings != nil
+//@   requires !isNaN(value) && !isInf(value)
+//@   assuming schema.Format == ""
+//@   modifies nothing
+//@   ensures [verdict] (result == nil) <==> validNumber(schema, value)
+//@   tag C01 C10 C12
